@@ -39,20 +39,20 @@ void run_c01(const char* type) {
                        [](T a, T b, T& o) { o = (T)(U)((U)a - (U)b); return true; });
     drive_binary<V, T>("C01", type, "mul", pairs, [](V a, V b) { return avel::to_array(a * b); },
                        [](T a, T b, T& o) { o = (T)(U)((uint64_t)(U)a * (uint64_t)(U)b); return true; });
-    drive_binary<V, T>("C01", type, "add_assign", pairs, [](V a, V b) { V& r = (a += b); return avel::to_array(r); },
+    drive_binary<V, T>("C01", type, "add_assign", pairs, [](V a, V b) { auto&& r = (a += b); return avel::to_array(V(r)); },
                        [](T a, T b, T& o) { o = (T)(U)((U)a + (U)b); return true; });
-    drive_binary<V, T>("C01", type, "sub_assign", pairs, [](V a, V b) { V& r = (a -= b); return avel::to_array(r); },
+    drive_binary<V, T>("C01", type, "sub_assign", pairs, [](V a, V b) { auto&& r = (a -= b); return avel::to_array(V(r)); },
                        [](T a, T b, T& o) { o = (T)(U)((U)a - (U)b); return true; });
-    drive_binary<V, T>("C01", type, "mul_assign", pairs, [](V a, V b) { V& r = (a *= b); return avel::to_array(r); },
+    drive_binary<V, T>("C01", type, "mul_assign", pairs, [](V a, V b) { auto&& r = (a *= b); return avel::to_array(V(r)); },
                        [](T a, T b, T& o) { o = (T)(U)((uint64_t)(U)a * (uint64_t)(U)b); return true; });
 
     drive_unary<V, T>("C01", type, "neg", vals, [](V a) { return Neg<V>::run(a); },
                       [](T a, T& o) { o = (T)(U)((U)0 - (U)a); return true; });
     drive_unary<V, T>("C01", type, "pos", vals, [](V a) { return avel::to_array(+a); },
                       [](T a, T& o) { o = a; return true; });
-    drive_unary<V, T>("C01", type, "pre_inc", vals, [](V a) { V& r = ++a; return avel::to_array(r); },
+    drive_unary<V, T>("C01", type, "pre_inc", vals, [](V a) { auto&& r = ++a; return avel::to_array(V(r)); },
                       [](T a, T& o) { o = (T)(U)((U)a + 1); return true; });
-    drive_unary<V, T>("C01", type, "pre_dec", vals, [](V a) { V& r = --a; return avel::to_array(r); },
+    drive_unary<V, T>("C01", type, "pre_dec", vals, [](V a) { auto&& r = --a; return avel::to_array(V(r)); },
                       [](T a, T& o) { o = (T)(U)((U)a - 1); return true; });
     // post forms: returned value is the old one, the object is updated
     drive_unary<V, T>("C01", type, "post_inc_ret", vals, [](V a) { V r = a++; return avel::to_array(r); },
